@@ -21,6 +21,12 @@ What is covered:
    recurrence, symmetry, Prob = exp(LogProb), f(x)/exp(r)); the module prints (object, expression, exact rational,
    tolerance class), the harness area dist-rat / dist-mv interprets the expression on the real objects and compares
    through math/big.  R1: the lemmas guarding the oracle (Theorems) are TLC-checked on every parameter setting.
+5  specs/dist/RandLaws.tla, FitScoreLaws.tla, MvLaws.tla (kinds normal-chol, normal-prec, wishart, eigen, rand, distance),
+   SamplerProtocol.tla (halton, wor) - Rand of every law (one scripted variate through the law's own CDF; seeded draws against
+   specification-printed supports and Dvoretzky-Kiefer-Wolfowitz bands around the law's CDF / the marginal law), Fit / SuffStat /
+   ConjugateUpdate on exact data (small step programs interpreted on the real objects), Score / ScoreInput, entropies,
+   AlphaStable, the statistical distances of distuv and distmv, the three constructions of distmv.Normal, Wishart, UnitVector,
+   Halton stratification, WithoutReplacement.
 """
 import json
 import os
@@ -126,7 +132,17 @@ FN_GROUPS = [
     ("gamma-zeta-elliptic", ["digamma", "digamma-int", "gammainc", "zeta", "zeta-sums", "normalquantile", "normalquantile-special",
                              "elliptic", "elliptic-squares", "elliptic-rc", "legendre", "elliptic-special", "mvlgamma"]),
 ]
-MV_KINDS = ["normal", "studentst", "uniform", "dirichlet"]
+MV_KINDS = ["normal", "studentst", "uniform", "dirichlet",
+            # the three constructions of one normal law, Wishart densities (area dist-mv)
+            "normal-chol", "normal-prec", "wishart", "eigen"]
+# MvLaws kinds printed in the expression-tree format of area dist-rat: draws of the multivariate / matrix samplers
+# (marginal empirical distribution functions, supports) and the statistical distances of distmv
+MV_RAT_KINDS = ["rand", "distance"]
+# RandLaws.tla: one scripted variate through the law's own CDF; seeded draws (support, empirical distribution function)
+RAND_GROUPS = ["variate", "freq"]
+# FitScoreLaws.tla: Fit / SuffStat / ConjugateUpdate on exact data; Score / ScoreInput; entropies, higher moments, AlphaStable;
+# the statistical distances of distuv
+FITSCORE_GROUPS = ["fit", "score", "entropy", "distance"]
 
 
 def run_rational(ctx, binary, thorough):
@@ -144,6 +160,16 @@ def run_rational(ctx, binary, thorough):
     for kind in MV_KINDS:
         sub = dict(KIND=kind, TIER=tier, SALT=salt, EMIT="TRUE")
         jobs.append(("dist/MvLaws.tla", "dist/MvLaws.cfg", sub, "dist-mv", "distmv " + kind))
+    if have("RandLaws.tla"):
+        for kind in MV_RAT_KINDS:
+            sub = dict(KIND=kind, TIER=tier, SALT=salt, EMIT="TRUE")
+            jobs.append(("dist/MvLaws.tla", "dist/MvLaws.cfg", sub, "dist-rat", "distmv/distmat/samplemv " + kind))
+        for g in RAND_GROUPS:
+            sub = dict(GROUP=g, TIER=tier, SALT=salt, EMIT="TRUE")
+            jobs.append(("dist/RandLaws.tla", "dist/RandLaws.cfg", sub, "dist-rat", "distuv Rand " + g))
+        for g in FITSCORE_GROUPS:
+            sub = dict(GROUP=g, TIER=tier, SALT=salt, EMIT="TRUE")
+            jobs.append(("dist/FitScoreLaws.tla", "dist/FitScoreLaws.cfg", sub, "dist-rat", "distuv " + g))
 
     def one(job):
         spec, cfg, sub, area, name = job
@@ -156,9 +182,12 @@ def run_rational(ctx, binary, thorough):
 def run_samplers(ctx, binary, thorough):
     # (protocol, MaxB, MaxSteps, MaxBurn, MaxRate): one TLC run explores every script in the bound, checks the counting /
     # structural invariants at every state (R1) and prints every complete script (R2)
-    plan = [("rejection", 2, 5, 0, 0), ("mh", 3, 0, 2, 3), ("lhc", 4, 0, 0, 0), ("simple", 3, 0, 0, 0)]
+    plan = [("rejection", 2, 5, 0, 0), ("mh", 3, 0, 2, 3), ("lhc", 4, 0, 0, 0), ("simple", 3, 0, 0, 0),
+            # halton: n <= 25 * MaxB points in dimension 1..3; wor: WithoutReplacement of k <= n <= MaxB + 1
+            ("halton", 4, 0, 0, 0), ("wor", 4, 0, 0, 0)]
     if thorough:
-        plan = [("rejection", 3, 6, 0, 0), ("mh", 4, 0, 3, 3), ("lhc", 5, 0, 0, 0), ("simple", 4, 0, 0, 0)]
+        plan = [("rejection", 3, 6, 0, 0), ("mh", 4, 0, 3, 3), ("lhc", 5, 0, 0, 0), ("simple", 4, 0, 0, 0),
+                ("halton", 4, 0, 0, 0), ("wor", 5, 0, 0, 0)]
     for proto, maxb, maxsteps, maxburn, maxrate in plan:
         sub = dict(PROTO=proto, MAXB=maxb, MAXSTEPS=maxsteps, MAXBURN=maxburn, MAXRATE=maxrate, EMIT="TRUE")
         cases = ctx.gen("dist/SamplerProtocol.tla", "dist/SamplerProtocol.cfg", subst=sub,
